@@ -13,9 +13,10 @@ EM-UNITS   dimensional homogeneity of every entry of F, B_gyro, B_accel, the out
            transform and the Jacobians (scaling symmetry in the normal form)
 EM-FRAME   body-frame covariance: B(C Q) = B(C) Q, F independent of attitude
 EM-CALLS   every call of the 2-D embedding passes (VN, VE) of the same state
-PROP-FORM  propagate_errors: Phi = I + (F_i + F_i+1)/2 dt, sensor term * dt
+PROP-CONSIST  propagate_errors: one-step map consistent with x' = F x + Bg eg + Ba ea
 """
 import ast
+from fractions import Fraction
 
 from ..expr import SymEval, SArray, Rec, Obj, Opaque, Unsupported
 from ..model import AnalysisError, norm_text
@@ -509,64 +510,323 @@ def em_frame(ctx):
            why='error dynamics matrix depends on attitude at entries %s' % dep[:4])
 
 
-def prop_form(ctx):
-    ctx.rule('PROP-FORM', 'propagate_errors: Phi = I + (F_i + F_i+1)/2 * dt; sensor terms averaged '
-             'and multiplied by dt; start from transform_to_internal(first row) @ error')
+class _DtPoly:
+    """polynomial in the (commuting, scalar) step dt with non-commutative matrix coefficients"""
+
+    def __init__(self, A, terms=None):
+        self.A = A
+        self.t = {k: v for k, v in (terms or {}).items() if v.t}
+
+    def add(self, o, sign=1):
+        t = dict(self.t)
+        for k, v in o.t.items():
+            t[k] = self.A.add(t[k], v, sign) if k in t else (v if sign == 1 else self.A.neg(v))
+        return _DtPoly(self.A, t)
+
+    def mul(self, o):
+        t = {}
+        for k1, v1 in self.t.items():
+            for k2, v2 in o.t.items():
+                p = self.A.mul(v1, v2)
+                t[k1 + k2] = self.A.add(t[k1 + k2], p) if k1 + k2 in t else p
+        return _DtPoly(self.A, t)
+
+    def scale(self, c):
+        return _DtPoly(self.A, {k: self.A.scale(v, c) for k, v in self.t.items()})
+
+    def rename(self, f):
+        from .kal import NC
+        out = {}
+        for k, v in self.t.items():
+            tt = {}
+            for m, c in v.t.items():
+                mm = tuple((f(a), tr) for a, tr in m)
+                tt[mm] = tt.get(mm, 0) + c
+            out[k] = NC(tt)
+        return _DtPoly(self.A, out)
+
+
+class _PropEval:
+    """Evaluate propagate_errors in the domain: per-sample matrices / vectors with a `current`
+    and a `next` version (X[:-1] / X[1:]), non-commutative products, scalar step dt."""
+
+    def __init__(self, ctx, f):
+        from .kal import NCAlg
+        self.ctx, self.f = ctx, f
+        self.A = NCAlg()
+        self.env = {}
+        self.res = lambda n: f.module.resolve(n, f.local_names())
+        self.em = None           # local holding the InsErrorModel
+        self.stores = []         # (target text, value, node) for loop stores x[i + 1] = ...
+        self.state = None        # name of the state array
+        self.loopvar = None
+        self.roles = {}
+
+    def P(self, nc, deg=0):
+        return _DtPoly(self.A, {deg: nc})
+
+    def atom(self, name):
+        return self.P(self.A.atom(name))
+
+    def const(self, node):
+        try:
+            v = self.ctx.repo.fold(node, self.f.module)
+        except ValueError:
+            return None
+        return v if isinstance(v, (int, float)) and not isinstance(v, bool) else None
+
+    def nextv(self, v):
+        return v.rename(lambda a: a if a.endswith('+') or a in ('I',) else a + '+')
+
+    def ev(self, e):
+        A = self.A
+        c = self.const(e)
+        if c is not None:
+            return ('const', Fraction(repr(c)))
+        if isinstance(e, ast.Name):
+            if e.id in self.env:
+                return self.env[e.id]
+            raise AnalysisError('propagate_errors: `%s` not understood' % e.id)
+        if isinstance(e, ast.BinOp):
+            if isinstance(e.op, ast.MatMult):
+                return self.val(e.left).mul(self.val(e.right))
+            a, b = self.ev(e.left), self.ev(e.right)
+            if isinstance(e.op, (ast.Add, ast.Sub)):
+                if isinstance(a, tuple) or isinstance(b, tuple):
+                    raise AnalysisError('propagate_errors: constant added to a matrix')
+                return a.add(b, 1 if isinstance(e.op, ast.Add) else -1)
+            if isinstance(e.op, ast.Mult):
+                if isinstance(a, tuple) and isinstance(b, tuple):
+                    return ('const', a[1] * b[1])
+                if isinstance(a, tuple):
+                    return b.scale(a[1])
+                if isinstance(b, tuple):
+                    return a.scale(b[1])
+                # element-wise product with the scalar step (dt, dt.reshape(-1, 1, 1), dt[i])
+                for x, y in ((a, b), (b, a)):
+                    if self.is_step(y):
+                        return _DtPoly(A, {k + 1: v for k, v in x.t.items()})
+                raise AnalysisError('propagate_errors: element-wise product `%s`'
+                                    % norm_text(e)[:60])
+            if isinstance(e.op, ast.Div) and isinstance(b, tuple) and not isinstance(a, tuple):
+                return a.scale(1 / b[1])
+            raise AnalysisError('propagate_errors: operator in `%s`' % norm_text(e)[:60])
+        if isinstance(e, ast.UnaryOp) and isinstance(e.op, ast.USub):
+            return self.val(e.operand).scale(Fraction(-1))
+        if isinstance(e, ast.Attribute) and e.attr in ('values', 'T'):
+            v = self.val(e.value)
+            if e.attr == 'T':
+                return _DtPoly(A, {k: A.T(x) for k, x in v.t.items()})
+            return v
+        if isinstance(e, ast.Subscript):
+            base = self.ev(e.value)
+            sl = e.slice
+            if isinstance(sl, ast.Slice):
+                lo = norm_text(sl.lower) if sl.lower else None
+                hi = norm_text(sl.upper) if sl.upper else None
+                if (lo, hi) == ('1', None):
+                    return self.nextv(base)
+                if (lo, hi) == (None, '-1'):
+                    return base
+                if (lo, hi) == (None, None):
+                    return base
+                raise AnalysisError('propagate_errors: slice `%s`' % norm_text(e))
+            if self.loopvar and norm_text(sl) == self.loopvar:
+                return base
+            if self.loopvar and norm_text(sl) in ('%s + 1' % self.loopvar, '1 + %s' % self.loopvar):
+                return self.nextv(base)
+            raise AnalysisError('propagate_errors: index `%s`' % norm_text(e))
+        if isinstance(e, ast.Call):
+            q = self.res(e.func) or ''
+            fn = e.func
+            if q in ('numpy.identity', 'numpy.eye'):
+                return self.P(A.ident())
+            if q == 'pyins.util.mv_prod' and len(e.args) == 2 and not e.keywords:
+                return self.val(e.args[0]).mul(self.val(e.args[1]))
+            if q in ('numpy.dot', 'numpy.matmul') and len(e.args) == 2:
+                return self.val(e.args[0]).mul(self.val(e.args[1]))
+            if q in ('numpy.asarray', 'numpy.array') and e.args:
+                return self.ev(e.args[0])
+            if isinstance(fn, ast.Attribute) and fn.attr == 'dot' and len(e.args) == 1:
+                return self.val(fn.value).mul(self.val(e.args[0]))
+            if isinstance(fn, ast.Attribute) and fn.attr in ('reshape', 'copy', 'astype'):
+                return self.ev(fn.value)
+            raise AnalysisError('propagate_errors: call `%s`' % norm_text(e)[:60])
+        raise AnalysisError('propagate_errors: expression `%s`' % norm_text(e)[:60])
+
+    def val(self, e):
+        v = self.ev(e)
+        if isinstance(v, tuple):
+            raise AnalysisError('propagate_errors: matrix expected in `%s`' % norm_text(e)[:50])
+        return v
+
+    def is_step(self, v):
+        return isinstance(v, _DtPoly) and set(v.t) == {1} and \
+            self.A.eq(v.t[1], self.A.ident())
+
+
+def prop_consist(ctx):
+    ctx.rule('PROP-CONSIST', 'propagate_errors: the one-step map x[i+1] = Phi x[i] + u is consistent '
+             'with x\' = F x + B_gyro e_g + B_accel e_a (coefficient of dt^0 is x, of dt^1 is the '
+             'right-hand side when consecutive samples coincide); x[0] = T_internal(first row) @ '
+             'initial error; output = T_output(trajectory) x')
     f = ctx.repo.function('error_model.propagate_errors')
-    txt = {norm_text(st.targets[0]) if isinstance(st, ast.Assign) else None: st
-           for st in f.node.body}
-    st = txt.get('Phi')
-    ok = st is not None and norm_text(st.value) in (
-        '0.5 * (Fi[1:] + Fi[:-1]) * dt.reshape(-1, 1, 1)',
-        '0.5 * (Fi[:-1] + Fi[1:]) * dt.reshape(-1, 1, 1)')
-    ctx.ob('PROP-FORM', ok, None, 'Phi - I = (F_i + F_i+1)/2 * dt', f=f,
-           node=(st or f.node), key='phi', why='discrete transition is `%s`'
-                                               % (norm_text(st.value) if st else 'missing'))
-    ident = [s for s in f.node.body if isinstance(s, ast.AugAssign) and
-             norm_text(s.target).startswith('Phi') and 'identity' in norm_text(s.value)]
-    ctx.ob('PROP-FORM', len(ident) == 1 and isinstance(ident[0].op, ast.Add), None,
-           'identity added to Phi', f=f, node=(ident[0] if ident else f.node), key='ident',
-           why='identity is not added to the transition matrix')
-    st = txt.get('dt')
-    ctx.ob('PROP-FORM', st is not None and norm_text(st.value) == 'np.diff(%s.index)' % f.params[0],
-           None, 'dt = diff(trajectory.index)', f=f, node=(st or f.node), key='dt',
-           why='time step is not the difference of the trajectory time stamps')
-    rec = [n for n in ast.walk(f.node) if isinstance(n, ast.Assign) and
-           isinstance(n.targets[0], ast.Subscript) and norm_text(n.targets[0]) == 'x[i + 1]']
-    ok = len(rec) == 1 and norm_text(rec[0].value) in (
-        'Phi[i].dot(x[i]) + delta_sensor[i] * dt[i]', 'Phi[i] @ x[i] + delta_sensor[i] * dt[i]')
-    ctx.ob('PROP-FORM', ok, None, 'x[i+1] = Phi[i] x[i] + delta_sensor[i] dt[i]', f=f,
-           node=(rec[0] if rec else f.node), key='rec',
-           why='recursion is `%s`' % (norm_text(rec[0].value) if rec else 'missing'))
-    st = txt.get('delta_sensor')
-    ok = st is not None and norm_text(st.value).replace(' ', '') == (
-        '0.5*(gyro_error[1:]+gyro_error[:-1]+accel_error[1:]+accel_error[:-1])')
-    ctx.ob('PROP-FORM', ok, None, 'sensor term = trapezoid average of B_gyro e_g + B_accel e_a',
-           f=f, node=(st or f.node), key='sensor', why='sensor forcing is `%s`' % (
-               norm_text(st.value) if st else 'missing'))
-    pairs = {'gyro_error': 'util.mv_prod(Fig, gyro_error)',
-             'accel_error': 'util.mv_prod(Fia, accel_error)'}
-    for k, v in pairs.items():
-        st = txt.get(k)
-        ctx.ob('PROP-FORM', st is not None and norm_text(st.value) == v, None, '%s mapped through '
-               'its own coupling matrix' % k, f=f, node=(st or f.node), key='map-' + k,
-               why='%s is mapped by `%s`' % (k, norm_text(st.value) if st else 'missing'))
-    st = txt.get('x0')
-    ok = st is not None and norm_text(st.value) == \
-        'error_model.transform_to_internal(%s.iloc[0]) @ pva_error.values' % f.params[0]
-    ctx.ob('PROP-FORM', ok, None, 'x0 = T_internal(first row) @ initial output error', f=f,
-           node=(st or f.node), key='x0', why='initial internal error is `%s`' % (
-               norm_text(st.value) if st else 'missing'))
-    unpack = [s for s in f.node.body if isinstance(s, ast.Assign) and
-              isinstance(s.targets[0], ast.Tuple) and 'system_matrices' in norm_text(s.value)]
-    ok = len(unpack) == 1 and [norm_text(e) for e in unpack[0].targets[0].elts] == \
-        ['Fi', 'Fig', 'Fia']
-    ctx.ob('PROP-FORM', ok, None, '(Fi, Fig, Fia) = system_matrices(trajectory)', f=f,
-           node=(unpack[0] if unpack else f.node), key='unpack',
-           why='system matrices are unpacked in a different order')
+    E = _PropEval(ctx, f)
+    A = E.A
+    traj = f.params[0]
+    errs = {}
+    doc = f.doc_kinds()['params'] if hasattr(f, 'doc_kinds') else {}
+    gy = [p_ for p_ in f.params if 'gyro' in p_]
+    ac = [p_ for p_ in f.params if 'accel' in p_]
+    ctx.need(len(gy) == 1 and len(ac) == 1, 'propagate_errors: gyro/accel error parameters')
+    E.env[gy[0]] = E.atom('eg')
+    E.env[ac[0]] = E.atom('ea')
+    init_param = [p_ for p_ in f.params[1:] if p_ not in (gy[0], ac[0]) and 'altitude' not in p_]
+    ctx.need(len(init_param) == 1, 'propagate_errors: initial-error parameter')
+    E.env[init_param[0]] = E.atom('e0')
+    x0 = None
+    out_T = None
+    out_val = None
+    body = list(f.node.body)
+    for st in body:
+        if isinstance(st, ast.Expr) and isinstance(st.value, ast.Constant):
+            continue
+        if isinstance(st, ast.If):
+            # default for a missing initial error: zeros - does not change the roles
+            continue
+        if isinstance(st, ast.Return):
+            continue
+        if isinstance(st, ast.For):
+            ctx.need(isinstance(st.target, ast.Name), 'propagate_errors: loop target')
+            E.loopvar = st.target.id
+            for s2 in st.body:
+                if isinstance(s2, ast.Assign) and isinstance(s2.targets[0], ast.Subscript) and \
+                        isinstance(s2.targets[0].value, ast.Name):
+                    nm = s2.targets[0].value.id
+                    idx = norm_text(s2.targets[0].slice)
+                    E.env[nm] = E.atom('x')
+                    E.stores.append((nm, idx, E.val(s2.value), s2))
+                else:
+                    raise AnalysisError('propagate_errors: loop statement `%s`'
+                                        % norm_text(s2)[:60])
+            E.loopvar = None
+            continue
+        if isinstance(st, ast.AugAssign) and isinstance(st.op, ast.Add):
+            t = st.target
+            nm = t.value.id if isinstance(t, ast.Subscript) and isinstance(t.value, ast.Name) \
+                else (t.id if isinstance(t, ast.Name) else None)
+            if nm in E.env:
+                E.env[nm] = E.env[nm].add(E.val(st.value))
+                continue
+            raise AnalysisError('propagate_errors: update `%s`' % norm_text(st)[:60])
+        if isinstance(st, ast.Assign) and len(st.targets) == 1:
+            t, v = st.targets[0], st.value
+            # error_model = InsErrorModel(...)
+            if isinstance(t, ast.Name) and isinstance(v, ast.Call) and \
+                    (E.res(v.func) or '').endswith('InsErrorModel'):
+                E.em = t.id
+                continue
+            if isinstance(v, ast.Call) and isinstance(v.func, ast.Attribute) and \
+                    isinstance(v.func.value, ast.Name) and v.func.value.id == E.em:
+                m = v.func.attr
+                arg = norm_text(v.args[0]) if v.args else ''
+                if m == 'system_matrices' and isinstance(t, ast.Tuple) and len(t.elts) == 3:
+                    ctx.ob('PROP-CONSIST', arg == traj, None, 'system matrices of the trajectory',
+                           f=f, node=st, key='sysmat-arg',
+                           why='system_matrices is evaluated on `%s`, not on the trajectory' % arg)
+                    for el, nm in zip(t.elts, ('F', 'Bg', 'Ba')):
+                        E.env[el.id] = E.atom(nm)
+                    continue
+                if m in ('transform_to_output', 'transform_to_internal') and \
+                        isinstance(t, ast.Name):
+                    E.env[t.id] = E.atom('%s(%s)' % (m, arg))
+                    continue
+            if isinstance(t, ast.Name) and isinstance(v, ast.Call) and \
+                    E.res(v.func) == 'numpy.diff' and v.args and \
+                    norm_text(v.args[0]) == '%s.index' % traj:
+                E.env[t.id] = E.P(A.ident(), 1)
+                continue
+            if isinstance(t, ast.Name) and isinstance(v, ast.Call) and \
+                    E.res(v.func) in ('numpy.empty', 'numpy.zeros'):
+                E.env[t.id] = E.atom('x')
+                E.state = t.id
+                continue
+            if isinstance(t, ast.Name) and isinstance(v, (ast.Attribute, ast.Subscript)) and \
+                    'shape' in norm_text(v):
+                continue
+            if isinstance(t, ast.Subscript) and isinstance(t.value, ast.Name) and \
+                    t.value.id == E.state and norm_text(t.slice) == '0':
+                x0 = (E.val(v), st)
+                continue
+            if isinstance(t, ast.Name) and isinstance(v, ast.Call) and \
+                    (E.res(v.func) or '').startswith('pandas.'):
+                # result tables: data=...
+                for kw in v.keywords:
+                    if kw.arg == 'data' and not isinstance(kw.value, ast.Name):
+                        out_val = (E.val(kw.value), st)
+                continue
+            if isinstance(t, ast.Name):
+                # x0 = T(...) @ e0  contains a call on the error model: evaluate generally
+                E.env[t.id] = E.val(_inline_em_calls(E, v))
+                continue
+        raise AnalysisError('propagate_errors: statement `%s`' % norm_text(st)[:60])
+    ctx.need(E.stores, 'propagate_errors: recursion store not found')
+    nm, idx, val, node = E.stores[-1]
+    ctx.ob('PROP-CONSIST', E.loopvar is None and idx.replace(' ', '') in
+           ('%s+1' % node_loopvar(f), '1+%s' % node_loopvar(f)), None,
+           'the recursion writes row i + 1', f=f, node=node, key='row',
+           why='the recursion stores into row `%s`' % idx)
+    col = val.rename(lambda a: a[:-1] if a.endswith('+') else a)
+    at = A.atom
+    x = at('x')
+    ok0 = A.eq(col.t.get(0, A.sub(x, x)), x)
+    ctx.ob('PROP-CONSIST', ok0, None, 'dt^0 coefficient of x[i+1] is x[i]', f=f, node=node,
+           key='order0', why='for a vanishing step the propagated error is not the previous one '
+                             '(identity missing or doubled in the transition matrix)')
+    rhs = A.add(A.add(A.mul(at('F'), x), A.mul(at('Bg'), at('eg'))), A.mul(at('Ba'), at('ea')))
+    ok1 = 1 in col.t and A.eq(col.t[1], rhs)
+    ctx.ob('PROP-CONSIST', ok1, None, "dt^1 coefficient of x[i+1] is F x + B_gyro e_g + B_accel e_a",
+           f=f, node=node, key='order1',
+           why="the one-step map is not consistent with x' = F x + B_gyro e_gyro + B_accel e_accel: "
+               'its first-order part is %s' % (col.t[1].key()[:160] if 1 in col.t else '0'))
+    want0 = A.mul(at('transform_to_internal(%s.iloc[0])' % traj), at('e0'))
+    ctx.ob('PROP-CONSIST', x0 is not None and set(x0[0].t) == {0} and A.eq(x0[0].t[0], want0), None,
+           'x[0] = transform_to_internal(first row) @ initial output error', f=f,
+           node=(x0[1] if x0 else f.node), key='x0',
+           why='initial internal error is not transform_to_internal(%s.iloc[0]) @ %s'
+               % (traj, init_param[0]))
+    wantT = A.mul(at('transform_to_output(%s)' % traj), x)
+    ctx.ob('PROP-CONSIST', out_val is not None and set(out_val[0].t) == {0} and
+           A.eq(out_val[0].t[0], wantT), None,
+           'trajectory error = transform_to_output(trajectory) x', f=f,
+           node=(out_val[1] if out_val else f.node), key='output',
+           why='returned trajectory error is not transform_to_output(%s) applied to the '
+               'propagated state' % traj)
 
 
-# -------------------------------------------------------------------- EM-LINEAR
+def node_loopvar(f):
+    for n in ast.walk(f.node):
+        if isinstance(n, ast.For) and isinstance(n.target, ast.Name):
+            return n.target.id
+    return ''
+
+
+def _inline_em_calls(E, v):
+    """replace calls on the error-model object inside an expression by atoms"""
+    class T(ast.NodeTransformer):
+        def visit_Call(self, n):
+            self.generic_visit(n)
+            if isinstance(n.func, ast.Attribute) and isinstance(n.func.value, ast.Name) and \
+                    n.func.value.id == E.em and \
+                    n.func.attr in ('transform_to_output', 'transform_to_internal'):
+                nm = '__em_%d' % len(E.env)
+                E.env[nm] = E.atom('%s(%s)' % (n.func.attr, norm_text(n.args[0]) if n.args else ''))
+                return ast.copy_location(ast.Name(nm, ast.Load()), n)
+            return n
+    import copy
+    return T().visit(copy.deepcopy(v))
+
+
 def em_linear(ctx):
     """The error model is compared with the symbolic linearisation of the navigation equations.
 
